@@ -3,6 +3,7 @@
   real archives). No model prediction: the driver echoes the implementation's answer and JUDGES it.
     load.any : the only acceptable outcomes are `ok …` and `exc:<std::exception class>` (C02);
                crashes, sanitizer reports, terminate, timeouts are violations — except the recorded classes
+               (`terminate` is in no recorded class any more: the scope destructors defer their errors)
     rt.any   : `same`, or the save failed with an exception; a document that loads to a different value or
                cannot be loaded is a violation (C01) — except the recorded classes
 -/
@@ -23,7 +24,6 @@ def handle (toks : List String) (impl : Option String) : Option (String × Strin
         else if arch == "mp" && a == "crash:asan:stack-overflow" then "known:msgpack-deep-nesting-recursion"
         else if arch == "mp" && (a == "crash:asan:allocation-size-too-big" || a == "crash:asan:out-of-memory") then
           "known:msgpack-header-preallocation"
-        else if a == "terminate" && arch == "mp" then "known:msgpack-object-dtor-throws"
         else if arch == "json" && a.startsWith "crash:ubsan" then "known:rapidjson-fullprecision-edge-literals"
         else "bad:" ++ a.replace " " "_"
       | ["rt.any", arch, _src, target, _seed] =>
